@@ -710,7 +710,7 @@ def photon3d_unit(u: Unit):
         while isinstance(node, VOpaque) and node is not p.ex.cube and node.info.get("content_of") is not None and hops < 6:
             node, hops = node.info["content_of"], hops + 1
         u.oblige(p, "photon3d.container_holds_the_cube_written", node is p.ex.cube, {"stored": str(got)}, CUBE_REPLAY)
-    u.static("photon3d.cover", n_ok >= 1, td.qualname, f"{n_ok} round trips explored")
+    u.guard("photon3d.cover", n_ok >= 1, td.qualname, f"{n_ok} round trips explored")
 
 
 # ---- the ASDF reader: Detector.from_asdf / backends.from_asdf --------------------------------------------------------------------------
